@@ -72,9 +72,9 @@ def rule_ffi(chk, eng):
             else:
                 chk.ok("ffi-callback", inst)
     chk.count("ffi callbacks to external drivers", n_ext)
-    if cnt["unresolved"]:
-        raise core.AnalysisError("%d ctypes call site(s) with a callee/argument list the data-flow cannot resolve "
-                                 "(0 on the pinned tree)" % cnt["unresolved"])
+    if cnt["unresolved"] > max(3, cnt["sites"] // 20):
+        raise core.AnalysisError("%d of %d ctypes call sites have a callee / argument list the data-flow cannot resolve "
+                                 "(0 on the pinned tree; up to 5%% are tolerated as notes)" % (cnt["unresolved"], cnt["sites"]))
 
 
 # ----------------------------------------------------------------------------
@@ -386,12 +386,34 @@ def _guard_tests(fn):
     return out
 
 
+def find_func(prog, rel, qual):
+    """module function or Class.method, the method also searched through the class's bases (MRO) -> (module rel,
+    FunctionDef) or None"""
+    mod = prog.modules.get(rel)
+    if mod is None:
+        return None
+    if "." not in qual:
+        f = mod.functions.get(qual)
+        return (rel, f) if f is not None else None
+    cname, mname = qual.split(".", 1)
+    cls = mod.classes.get(cname)
+    if cls is None:
+        return None
+    r = prog.find_method(mod, cls, mname)
+    return (r[0].rel, r[2]) if r is not None else None
+
+
 def rule_param_guards(chk, prog):
     for (rel, qual), names in sorted(PARAM_GUARDS.items()):
-        fn = prog.module(rel).func(qual)
+        found = find_func(prog, rel, qual)
+        if found is None:
+            chk.note("param-guards", "%s:%s" % (rel, qual), "table entry not locatable: function no longer defined "
+                     "here nor in a base class (%s)" % ", ".join(names))
+            continue
+        rel, fn = found
         tests = _guard_tests(fn)
         # guards of helpers the function calls, with the helper's parameters replaced by the arguments
-        fg = guards.FunctionGuards(fn, guards.Resolver(prog.module(rel).ast))
+        fg = guards.FunctionGuards(fn, guards.Resolver(chk.tree.py(rel)))
         for ats in fg.atoms.values():
             tests += [e for e, _ in ats]
         # a ladder `if p in [...] ... else: raise` rejects through every test of the ladder
@@ -552,32 +574,114 @@ def rule_expnt(chk, prog):
     fn = mod.func("NLDFAuxiliaryPlan.eval_feat_exp")
     g = cfgm.CFG(fn)
 
-    def is_guard(node):
-        a = node.ast
-        if node.kind != "test" or not isinstance(a, ast.If):
-            return False
-        if not any(pf.is_self_attr(x, "_raise_large_expnt_error") for x in ast.walk(a.test)):
-            return False
-        # the guarded block must compare against the interpolation range and raise
-        raises = [x for x in ast.walk(a) if isinstance(x, ast.Raise)]
-        cmp_alphas = any(isinstance(x, ast.Compare) and "self.alphas" in pf.src(x) for x in ast.walk(a))
-        return bool(raises) and cmp_alphas
+    cls = mod.cls("NLDFAuxiliaryPlan")
+    FLAG = "_raise_large_expnt_error"
 
-    guards = [nd for nd in g.nodes if nd.ast is not None and is_guard(nd)]
-    if not guards:
-        chk.violation("expnt-guard", PL, "NLDFAuxiliaryPlan.eval_feat_exp", "large-exponent guard", fn.lineno,
-                      "eval_feat_exp no longer contains `if self._raise_large_expnt_error ...: ... raise` comparing "
-                      "the exponent with the largest interpolation exponent")
-        return
-    okp, path = g.must_pass(is_guard)
+    def is_cmp_raise(a):
+        """if <... compared with self.alphas ...>: ... raise"""
+        return isinstance(a, ast.If) and any(isinstance(x, ast.Raise) for st in a.body for x in ast.walk(st)) \
+            and any(isinstance(x, ast.Compare) and "self.alphas" in pf.src(x) for x in ast.walk(a.test))
+
+    def _is_empty_atom(e, pos):
+        """atom that says `some array has no elements` (x.size == 0, not x.size > 0, len(x) < 1, ...)"""
+        if not (isinstance(e, ast.Compare) and len(e.ops) == 1):
+            return False
+        l, r, op = e.left, e.comparators[0], type(e.ops[0]).__name__
+        def is_sz(x):
+            return (isinstance(x, ast.Attribute) and x.attr == "size") or (
+                isinstance(x, ast.Call) and pf.call_name(x) == "len")
+        def is_c(x, v):
+            return isinstance(x, ast.Constant) and x.value == v
+        if is_sz(r) and not is_sz(l):
+            l, r = r, l
+            op = {"Lt": "Gt", "LtE": "GtE", "Gt": "Lt", "GtE": "LtE"}.get(op, op)
+        if not is_sz(l):
+            return False
+        if not pos:
+            op = {"Lt": "GtE", "LtE": "Gt", "Gt": "LtE", "GtE": "Lt", "Eq": "NotEq", "NotEq": "Eq"}.get(op)
+        return (op == "Eq" and is_c(r, 0)) or (op == "LtE" and is_c(r, 0)) or (op == "Lt" and is_c(r, 1))
+
+    def exempt_edges(a):
+        """edge labels of a test node on which nothing has to be checked: the flag is false, or the array is empty"""
+        out = set()
+        if not isinstance(a, (ast.If, ast.While)):
+            return out
+        def implies(e, positive):
+            if isinstance(e, ast.UnaryOp) and isinstance(e.op, ast.Not):
+                return implies(e.operand, not positive)
+            if isinstance(e, ast.BoolOp):
+                conj = isinstance(e.op, ast.And) == positive
+                rs = [implies(v, positive) for v in e.values]
+                return any(rs) if conj else all(rs)
+            return (pf.is_self_attr(e, FLAG) and not positive) or _is_empty_atom(e, positive)
+
+        for lab, positive in (("T", True), ("F", False)):
+            if implies(a.test, positive):
+                out.add(lab)
+        return out
+
+    def unguarded_path(func, depth=0):
+        """a path entry -> normal exit on which the flag may be true and no comparison-with-raise is passed;
+        -> list of nodes or None.  Calls of self-methods that themselves have no such path count as the check."""
+        g = cfgm.CFG(func)
+
+        def checks(nd):
+            a = nd.ast
+            if a is None:
+                return False
+            if nd.kind == "test" and is_cmp_raise(a):
+                return True
+            if nd.kind == "stmt" and isinstance(a, (ast.Expr, ast.Assign)) and isinstance(a.value, ast.Call) and depth < 2:
+                f = a.value.func
+                if isinstance(f, ast.Attribute) and isinstance(f.value, ast.Name) and f.value.id == "self":
+                    r = prog.find_method(mod, cls, f.attr)
+                    if r is not None and r[2] is not func and has_check(r[2]) \
+                            and unguarded_path(r[2], depth + 1) is None:
+                        return True
+            return False
+
+        par = {g.entry.id: None}
+        todo = [g.entry.id]
+        while todo:
+            u = todo.pop(0)
+            if u == g.exit.id:
+                path = []
+                while u is not None:
+                    path.append(g.nodes[u])
+                    u = par[u]
+                return list(reversed(path))
+            nd = g.nodes[u]
+            if checks(nd):
+                continue
+            exempt = exempt_edges(nd.ast) if nd.kind == "test" else ()
+            for v in g.succ[u]:
+                if g.edge_label.get((u, v)) in exempt:
+                    continue  # flag false / no exponents on this edge: nothing has to be checked
+                if v not in par:
+                    par[v] = u
+                    todo.append(v)
+        return None
+
+    def has_check(func):
+        return any(is_cmp_raise(n) for n in ast.walk(func)) and any(pf.is_self_attr(n, FLAG) for n in ast.walk(func))
+
     inst = "NLDFAuxiliaryPlan.eval_feat_exp: every normal exit passes the _raise_large_expnt_error test"
-    if okp:
-        chk.ok("expnt-guard", inst)
-    else:
-        last = [g.nodes[i] for i in path if g.nodes[i].ast is not None]
+    reach = [fn] + [r[2] for n in pf.walk_no_nested(fn) if isinstance(n, ast.Call) and isinstance(n.func, ast.Attribute)
+                    and isinstance(n.func.value, ast.Name) and n.func.value.id == "self"
+                    for r in [prog.find_method(mod, cls, n.func.attr)] if r is not None]
+    if not any(has_check(f) for f in reach):
         chk.violation("expnt-guard", PL, "NLDFAuxiliaryPlan.eval_feat_exp", "large-exponent guard", fn.lineno,
-                      "a path reaches a normal exit without passing the large-exponent test (via line %s)"
-                      % (getattr(last[-1].ast, "lineno", "?") if last else "?"), instance=inst)
+                      "neither eval_feat_exp nor a method it calls tests self._raise_large_expnt_error and raises after "
+                      "comparing the exponent with the largest interpolation exponent (self.alphas)", instance=inst)
+    else:
+        path = unguarded_path(fn)
+        if path is None:
+            chk.ok("expnt-guard", inst)
+        else:
+            last = [n for n in path if n.ast is not None]
+            chk.violation("expnt-guard", PL, "NLDFAuxiliaryPlan.eval_feat_exp", "large-exponent guard", fn.lineno,
+                          "a path reaches a normal exit without passing the large-exponent test (via line %s)"
+                          % (getattr(last[-1].ast, "lineno", "?") if last else "?"), instance=inst)
     # the flag must be settable to True by the constructor and default to raising
     init = mod.func("NLDFAuxiliaryPlan.__init__")
     stores = [n for n in pf.walk_no_nested(init) if isinstance(n, ast.Assign)
@@ -594,7 +698,7 @@ def rule_expnt(chk, prog):
 
 
 # ----------------------------------------------------------------------------
-# rule 6: shape / contiguity guards.  FROZEN_GUARDS was produced from the pinned tree by
+# rule 6: shape / contiguity guards.  FROZEN_CALL_GUARDS / FROZEN_FUNC_GUARDS were produced from the pinned tree by
 #         collect_guards() (`C18_DUMP_GUARDS=1 python3 checks/c18.py` prints the current table) and is
 #         compared as a multiset lower bound: a guard may be added, none may disappear.
 # ----------------------------------------------------------------------------
@@ -602,14 +706,15 @@ _CINT = __import__("re").compile(r"(?:ctypes\.)?c_(?:int|long|size_t|int32|int64
 
 
 def collect_guards(tree, eng, prog):
-    """-> {"rel::qualname": sorted list of signatures} for every function that makes a native call and for the
-    functions of the validator modules (feat_normalizer, xc_evaluator).
-      <ident>:<kind>   kind in contig/shape/ndim/size/dtype/nfeat, guaranteed on every path to the native call(s)
-                       that receive the array (or to the normal exit when it is not handed to C)
-      rel:<linear form> <= 0 | == 0    relation between integer counts handed to the native call
-    ident = c:<callee>#<k> (array passed as k-th argument of that C function; one signature per callee
-    alternative), p:<parameter name> (not handed to C), or the self.attr text.  See sa.guards for the spellings
-    that are recognised as the same guard."""
+    """-> (call_guards, func_guards)
+
+    call_guards: {module: {callee: [set(signatures) per call site of that C function in the module]}}
+        c:<callee>#<k>:<kind>    the array passed as k-th argument is guaranteed contig/shape/ndim/size/dtype on
+                                 every path to the call -- by the function that makes the call, by a helper it
+                                 calls, or by every caller of the (helper) function that makes the call
+        rel:<linear form> <= 0   relation between the integer arguments (callee#position)
+    func_guards: {"module::qualname": set(signatures)}   p:<parameter>:<kind> / self.<attr>:<kind> guaranteed on
+        every path to the normal exit, for parameters that are not handed to C (pure-Python validators)."""
     by_fn = {}
     for s in eng.sites:
         by_fn.setdefault((s.rel, s.func), []).append(s)
@@ -618,8 +723,8 @@ def collect_guards(tree, eng, prog):
         for n in ast.walk(prog.module(rel).ast):
             if isinstance(n, ast.FunctionDef):
                 targets.setdefault((rel, pf.qualname(n)), [])
-    out = {}
-    resolvers = {}
+    call_guards, func_guards = {}, {}
+    resolvers, caches = {}, {}
     for (rel, qual), sites in sorted(targets.items()):
         if qual == "<module>":
             continue
@@ -633,57 +738,76 @@ def collect_guards(tree, eng, prog):
             continue
         if rel not in resolvers:
             resolvers[rel] = guards.Resolver(mod_ast)
-        fg = guards.FunctionGuards(fn, resolvers[rel])
+            caches[rel] = {}
+        e_atoms, e_direct = ([], {})
+        if sites:
+            e_atoms, e_direct = guards.caller_context(mod_ast, fn, resolvers[rel], caches[rel])
+        fg = guards.FunctionGuards(fn, resolvers[rel], entry_atoms=e_atoms, entry_direct=e_direct)
         g = fg.cfg
         params = [a.arg for a in fn.args.args + fn.args.kwonlyargs]
-        passed = {}   # subject text -> {(call node id, "callee#k")}
-        scalars = {}  # callee -> {python name: ["callee#k"]}
-        call_nodes = set()
-        for s in sites:
-            cn = g.stmt_of_expr(s.node)
-            if cn is not None:
-                call_nodes.add(cn.id)
-            for c, al in s.pairs:
-                if c is None or al is None:
-                    continue
-                callee = c[1][1]
-                for i, it in enumerate(al):
-                    src = it[1]
-                    if ".ctypes" in src:
-                        passed.setdefault(src.split(".ctypes")[0], set()).add((cn.id if cn else None, "c:%s#%d" % (callee, i)))
-                    m_ = _CINT.match(src)
-                    if m_:
-                        scalars.setdefault(callee, {}).setdefault(m_.group(1), []).append("%s#%d" % (callee, i))
-        sigs = set()
         nk = fg.node_kinds()
         pairs = {}
         for nid, d in nk.items():
             for subj, kinds in d.items():
                 for k in kinds:
                     pairs.setdefault((subj, k), set()).add(nid)
-        for (subj, kind), ids in sorted(pairs.items()):
-            dsts = sorted({d for d, _ in passed.get(subj, ()) if d is not None}) or [g.exit.id]
-            if not fg.guaranteed(ids, dsts):
+        passed_any = set()
+        for s in sites:
+            cn = g.stmt_of_expr(s.node)
+            if cn is None:
                 continue
-            if subj in ("self", "cls"):
+            per_callee = {}
+            for c, al in s.pairs:
+                if c is None or al is None:
+                    continue
+                callee = c[1][1]
+                sigs = per_callee.setdefault(callee, set())
+                names = {}
+                for i, it in enumerate(al):
+                    src = it[1]
+                    if ".ctypes" in src:
+                        subj = src.split(".ctypes")[0]
+                        passed_any.add(subj)
+                        for (sj, kind), ids in pairs.items():
+                            if sj == subj and fg.guaranteed(ids, [cn.id]):
+                                sigs.add("c:%s#%d:%s" % (callee, i, kind))
+                    m_ = _CINT.match(src)
+                    if m_:
+                        names.setdefault(m_.group(1), []).append("%s#%d" % (callee, i))
+                if names:
+                    for ids, canon in _relation_sets(fg, names):
+                        if fg.guaranteed(ids, [cn.id]):
+                            sigs.add("rel:" + canon)
+            for callee, sigs in per_callee.items():
+                call_guards.setdefault(rel, {}).setdefault(callee, []).append(sigs)
+        fs = set()
+        for (subj, kind), ids in sorted(pairs.items() if rel in (FN, XE) else ()):
+            if subj in passed_any or subj in ("self", "cls"):
                 continue
-            if subj in passed:
-                idents = sorted({i for _, i in passed[subj]})
-            elif subj in params:
-                idents = ["p:" + subj]
+            if not fg.guaranteed(ids, [g.exit.id]):
+                continue
+            if subj in params:
+                fs.add("p:%s:%s" % (subj, kind))
             elif subj.startswith("self."):
-                idents = [subj]
-            else:
-                continue
-            for ident in idents:
-                sigs.add("%s:%s" % (ident, kind))
-        for callee, names in sorted(scalars.items()):
-            for nid_set, canon in _relation_sets(fg, names):
-                if fg.guaranteed(nid_set, sorted(call_nodes) or [g.exit.id]):
-                    sigs.add("rel:" + canon)
-        if sigs:
-            out["%s::%s" % (rel, qual)] = sorted(sigs)
-    return out
+                fs.add("%s:%s" % (subj, kind))
+        if fs:
+            func_guards["%s::%s" % (rel, qual)] = fs
+    return call_guards, func_guards
+
+
+def guard_tables(tree, eng, prog):
+    """the two tables in the form they are frozen in this file"""
+    cg, fgd = collect_guards(tree, eng, prog)
+    calls = {}
+    for rel, d in cg.items():
+        cnt = {}
+        for callee, per_site in d.items():
+            for sigs in per_site:
+                for sg in sigs:
+                    cnt[sg] = cnt.get(sg, 0) + 1
+        if cnt:
+            calls[rel] = dict(sorted(cnt.items()))
+    return calls, {k: sorted(v) for k, v in fgd.items()}
 
 
 def _relation_sets(fg, names):
@@ -694,89 +818,498 @@ def _relation_sets(fg, names):
     return [(ids, r) for r, ids in sorted(by.items())]
 
 
+def _sig_callee(sig):
+    if sig.startswith("c:"):
+        return sig[2:].split("#")[0]
+    import re
+    m = re.search(r"([A-Za-z_]\w*)#\d+", sig)
+    return m.group(1) if m else None
+
+
 def rule_guards(chk, eng, prog):
-    cur = collect_guards(chk.tree, eng, prog)
-    chk.count("functions with input guards", len(cur))
-    if not FROZEN_GUARDS:
-        raise core.AnalysisError("frozen guard table is empty")
-    for key, want in sorted(FROZEN_GUARDS.items()):
+    """A frozen guard is *violated* only when the native call (or the validator function) is still found and
+    some path to it provably lacks the check; an entry whose call / function / parameter can no longer be located
+    (moved to another module, renamed) degrades to a NOTE and is counted."""
+    cg, fgd = collect_guards(chk.tree, eng, prog)
+    chk.count("modules with guarded native calls", len(cg))
+    if not FROZEN_CALL_GUARDS or not FROZEN_FUNC_GUARDS:
+        raise core.AnalysisError("frozen guard tables are empty")
+    unloc = 0
+    total = 0
+    for rel, want in sorted(FROZEN_CALL_GUARDS.items()):
+        for sig, n_frozen in sorted(want.items()):
+            total += 1
+            callee = _sig_callee(sig)
+            inst = "%s %s" % (rel, sig)
+            per_site = cg.get(rel, {}).get(callee) if chk.tree.exists(rel) else None
+            if not per_site:
+                unloc += 1
+                chk.note("guards", rel, "guard table entry not locatable: no call of %s in this module any more (%s)"
+                         % (callee, sig))
+                continue
+            missing = [k for k, sigs in enumerate(per_site) if sig not in sigs]
+            # as many call sites as on the pinned tree (or all that are left, when sites were merged) must still
+            # guarantee it; a new, additional call site is not held to the table
+            if len(per_site) - len(missing) >= min(n_frozen, len(per_site)):
+                chk.ok("guards", inst)
+                continue
+            sites = [s for s in eng.sites if s.rel == rel and callee in s.callees]
+            s0 = sites[min(missing[0], len(sites) - 1)] if sites else None
+            if sig.startswith("rel:"):
+                msg = ("on the pinned tree every path to the call of %s guaranteed the relation `%s` between the "
+                       "integer arguments it passes (callee#position); %d of %d call site(s) in this module no longer "
+                       "do (neither the calling function, nor a helper it calls, nor all its callers)"
+                       % (callee, sig[4:], len(missing), len(per_site)))
+            else:
+                k, kind = sig[2:].split("#")[1].split(":")
+                msg = ("on the pinned tree every path to the call of %s guaranteed a %s check on the array passed as "
+                       "argument %s (assert, raising test, normalising re-binding, in the calling function, a helper it "
+                       "calls, or all its callers); %d of %d call site(s) in this module no longer do"
+                       % (callee, kind, k, len(missing), len(per_site)))
+            chk.violation("guards", rel, s0.func if s0 else "", "guard %s" % sig, s0.line if s0 else 0, msg, instance=inst)
+    for key, want in sorted(FROZEN_FUNC_GUARDS.items()):
         rel, qual = key.split("::")
-        if not chk.tree.exists(rel):
-            raise core.AnalysisError("guard table: module %s vanished" % rel)
-        have = set(cur.get(key, []))
-        fdef = [n for n in ast.walk(chk.tree.py(rel)) if isinstance(n, ast.FunctionDef) and pf.qualname(n) == qual]
-        if not fdef:
-            raise core.AnalysisError("guard table: function %s vanished from %s" % (qual, rel))
-        fline = fdef[0].lineno
+        fdef = []
+        if chk.tree.exists(rel):
+            fdef = [n for n in ast.walk(chk.tree.py(rel)) if isinstance(n, ast.FunctionDef) and pf.qualname(n) == qual]
+        have = fgd.get(key, set())
         for sig in want:
+            total += 1
             inst = "%s %s" % (key, sig)
+            if not fdef:
+                unloc += 1
+                chk.note("guards", key, "guard table entry not locatable: function no longer in this module (%s)" % sig)
+                continue
             if sig in have:
                 chk.ok("guards", inst)
                 continue
-            ident, kind = sig.split(":", 1) if not sig.startswith(("c:", "p:")) else \
-                (sig[: sig.index(":", 2)], sig[sig.index(":", 2) + 1:])
-            if ident == "rel":
-                chk.violation("guards", rel, qual, "guard %s" % sig, fline,
-                              "on the pinned tree every path to the native call guaranteed the relation `%s` between "
-                              "the integer arguments it passes (callee#position); no assert / raising test on every "
-                              "path implies it any more" % kind, instance=inst)
-                continue
-            what = ("the array passed as argument %s of %s" % (ident[2:].split("#")[1], ident[2:].split("#")[0])
-                    if ident.startswith("c:") else "parameter `%s`" % ident[2:] if ident.startswith("p:") else ident)
-            chk.violation("guards", rel, qual, "guard %s" % sig, fline,
-                          "on the pinned tree every path to the %s guaranteed a %s check on %s (assert, raising test, "
-                          "normalising re-binding, or a helper doing so); that is no longer the case"
-                          % ("native call" if ident.startswith("c:") else "exit", kind, what), instance=inst)
+            if sig.startswith("p:"):
+                pname = sig[2:].split(":")[0]
+                if pname not in [a.arg for a in fdef[0].args.args + fdef[0].args.kwonlyargs]:
+                    unloc += 1
+                    chk.note("guards", key, "guard table entry not locatable: parameter `%s` no longer exists (%s)"
+                             % (pname, sig))
+                    continue
+            ident, kind = sig.rsplit(":", 1)
+            chk.violation("guards", rel, qual, "guard %s" % sig, fdef[0].lineno,
+                          "on the pinned tree every path to the normal exit of %s guaranteed a %s check on %s (assert, "
+                          "raising test, or a helper doing so); that is no longer the case"
+                          % (qual, kind, "parameter `%s`" % ident[2:] if ident.startswith("p:") else ident), instance=inst)
+    chk.count("guard table entries not locatable", unloc)
+    if unloc * 2 > total:
+        raise core.AnalysisError("more than half of the frozen guard table (%d of %d entries) cannot be located: the "
+                                 "table no longer describes this tree" % (unloc, total))
 
 
-FROZEN_GUARDS = {
-    'ciderpress/dft/baselines.py::get_libxc_gga_baseline': [
-        'c:get_gga_baseline#3:contig',
-        'c:get_gga_baseline#4:contig',
-        'c:get_gga_baseline#4:ndim',
-        'c:get_gga_baseline#4:shape',
-        'c:get_gga_baseline#5:contig',
-        'c:get_gga_baseline#5:shape',
-        'c:get_gga_baseline#6:contig',
-        'c:get_gga_baseline#6:shape',
-        'c:get_gga_baseline#7:contig',
-        'c:get_gga_baseline#7:shape',
-    ],
-    'ciderpress/dft/baselines.py::get_libxc_lda_baseline': [
-        'c:get_lda_baseline#3:contig',
-        'c:get_lda_baseline#4:contig',
-        'c:get_lda_baseline#4:shape',
-        'c:get_lda_baseline#5:contig',
-        'c:get_lda_baseline#5:shape',
-    ],
-    'ciderpress/dft/baselines.py::get_libxc_mgga_baseline': [
-        'c:get_mgga_baseline#3:contig',
-        'c:get_mgga_baseline#4:contig',
-        'c:get_mgga_baseline#4:ndim',
-        'c:get_mgga_baseline#4:shape',
-        'c:get_mgga_baseline#6:contig',
-        'c:get_mgga_baseline#6:shape',
-        'c:get_mgga_baseline#7:contig',
-        'c:get_mgga_baseline#7:shape',
-        'c:get_mgga_baseline#8:contig',
-        'c:get_mgga_baseline#8:shape',
-        'c:get_mgga_baseline#9:contig',
-        'c:get_mgga_baseline#9:shape',
-    ],
-    'ciderpress/dft/debug_numint.py::get_nonlocal_features': [
-        'c:debug_numint_vi#0:contig',
-        'c:debug_numint_vi#0:shape',
-        'c:debug_numint_vi#3:contig',
-        'c:debug_numint_vi#4:contig',
-        'c:debug_numint_vj#0:contig',
-        'c:debug_numint_vj#0:shape',
-        'c:debug_numint_vj#4:contig',
-        'c:debug_numint_vj#5:contig',
-        'c:debug_numint_vk#0:contig',
-        'c:debug_numint_vk#0:shape',
-        'c:debug_numint_vk#4:contig',
-        'c:debug_numint_vk#5:contig',
-    ],
+FROZEN_CALL_GUARDS = {
+    'ciderpress/dft/baselines.py': {
+        'c:get_gga_baseline#3:contig': 1,
+        'c:get_gga_baseline#4:contig': 1,
+        'c:get_gga_baseline#4:ndim': 1,
+        'c:get_gga_baseline#4:shape': 1,
+        'c:get_gga_baseline#5:contig': 1,
+        'c:get_gga_baseline#5:shape': 1,
+        'c:get_gga_baseline#6:contig': 1,
+        'c:get_gga_baseline#6:shape': 1,
+        'c:get_gga_baseline#7:contig': 1,
+        'c:get_gga_baseline#7:shape': 1,
+        'c:get_lda_baseline#3:contig': 1,
+        'c:get_lda_baseline#4:contig': 1,
+        'c:get_lda_baseline#4:shape': 1,
+        'c:get_lda_baseline#5:contig': 1,
+        'c:get_lda_baseline#5:shape': 1,
+        'c:get_mgga_baseline#3:contig': 1,
+        'c:get_mgga_baseline#4:contig': 1,
+        'c:get_mgga_baseline#4:ndim': 1,
+        'c:get_mgga_baseline#4:shape': 1,
+        'c:get_mgga_baseline#6:contig': 1,
+        'c:get_mgga_baseline#6:shape': 1,
+        'c:get_mgga_baseline#7:contig': 1,
+        'c:get_mgga_baseline#7:shape': 1,
+        'c:get_mgga_baseline#8:contig': 1,
+        'c:get_mgga_baseline#8:shape': 1,
+        'c:get_mgga_baseline#9:contig': 1,
+        'c:get_mgga_baseline#9:shape': 1,
+    },
+    'ciderpress/dft/debug_numint.py': {
+        'c:debug_numint_vi#0:contig': 1,
+        'c:debug_numint_vi#0:shape': 1,
+        'c:debug_numint_vi#3:contig': 1,
+        'c:debug_numint_vi#4:contig': 1,
+        'c:debug_numint_vj#0:contig': 1,
+        'c:debug_numint_vj#0:shape': 1,
+        'c:debug_numint_vj#4:contig': 1,
+        'c:debug_numint_vj#5:contig': 1,
+        'c:debug_numint_vk#0:contig': 1,
+        'c:debug_numint_vk#0:shape': 1,
+        'c:debug_numint_vk#4:contig': 1,
+        'c:debug_numint_vk#5:contig': 1,
+    },
+    'ciderpress/dft/grids_indexer.py': {
+        'c:reduce_angc_to_ylm#0:contig': 1,
+        'c:reduce_angc_to_ylm#0:dtype': 1,
+        'c:reduce_angc_to_ylm#0:ndim': 1,
+        'c:reduce_angc_to_ylm#0:shape': 1,
+        'c:reduce_angc_to_ylm#2:contig': 1,
+        'c:reduce_angc_to_ylm#2:dtype': 1,
+        'c:reduce_angc_to_ylm#2:ndim': 1,
+        'c:reduce_angc_to_ylm#2:shape': 1,
+        'c:reduce_ylm_to_angc#0:contig': 1,
+        'c:reduce_ylm_to_angc#0:dtype': 1,
+        'c:reduce_ylm_to_angc#0:ndim': 1,
+        'c:reduce_ylm_to_angc#0:shape': 1,
+        'c:reduce_ylm_to_angc#2:contig': 1,
+        'c:reduce_ylm_to_angc#2:dtype': 1,
+        'c:reduce_ylm_to_angc#2:ndim': 1,
+        'c:reduce_ylm_to_angc#2:shape': 1,
+        'rel:reduce_angc_to_ylm#10 + reduce_angc_to_ylm#5 - reduce_angc_to_ylm#9 <= 0': 1,
+        'rel:reduce_ylm_to_angc#10 + reduce_ylm_to_angc#5 - reduce_ylm_to_angc#9 <= 0': 1,
+    },
+    'ciderpress/dft/lcao_convolutions.py': {
+        'c:contract_orb_to_rad#0:contig': 1,
+        'c:contract_orb_to_rad#0:dtype': 1,
+        'c:contract_orb_to_rad#0:ndim': 1,
+        'c:contract_orb_to_rad#0:shape': 1,
+        'c:contract_orb_to_rad#1:contig': 1,
+        'c:contract_orb_to_rad#1:dtype': 1,
+        'c:contract_orb_to_rad#1:ndim': 1,
+        'c:contract_orb_to_rad#1:shape': 1,
+        'c:contract_orb_to_rad#2:contig': 1,
+        'c:contract_orb_to_rad#2:dtype': 1,
+        'c:contract_orb_to_rad#2:ndim': 1,
+        'c:contract_orb_to_rad#2:size': 1,
+        'c:contract_orb_to_rad#3:contig': 1,
+        'c:contract_orb_to_rad#3:dtype': 1,
+        'c:contract_rad_to_orb#0:contig': 1,
+        'c:contract_rad_to_orb#0:dtype': 1,
+        'c:contract_rad_to_orb#0:ndim': 1,
+        'c:contract_rad_to_orb#0:shape': 1,
+        'c:contract_rad_to_orb#1:contig': 1,
+        'c:contract_rad_to_orb#1:dtype': 1,
+        'c:contract_rad_to_orb#1:ndim': 1,
+        'c:contract_rad_to_orb#1:shape': 1,
+        'c:contract_rad_to_orb#2:contig': 1,
+        'c:contract_rad_to_orb#2:dtype': 1,
+        'c:contract_rad_to_orb#2:ndim': 1,
+        'c:contract_rad_to_orb#2:size': 1,
+        'c:contract_rad_to_orb#3:contig': 1,
+        'c:contract_rad_to_orb#3:dtype': 1,
+        'c:generate_atc_basis_set#1:contig': 1,
+        'c:generate_atc_basis_set#2:contig': 1,
+        'c:generate_atc_basis_set#3:contig': 1,
+        'c:generate_atc_basis_set#4:contig': 1,
+        'c:generate_atc_basis_set#5:contig': 1,
+        'c:generate_convolution_collection#3:contig': 1,
+        'c:generate_convolution_collection#4:contig': 1,
+        'c:generate_convolution_collection#4:size': 1,
+        'c:generate_convolution_collection#5:contig': 1,
+        'c:get_atco_bas#0:contig': 1,
+        'c:get_atco_bas#0:shape': 1,
+        'c:get_atco_env#0:contig': 1,
+        'c:get_atco_env#0:shape': 1,
+        'c:multiply_atc_integrals#0:contig': 1,
+        'c:multiply_atc_integrals#0:ndim': 1,
+        'c:multiply_atc_integrals#0:shape': 1,
+        'c:multiply_atc_integrals#1:contig': 1,
+        'c:multiply_atc_integrals#1:ndim': 1,
+        'c:multiply_atc_integrals#1:shape': 1,
+        'c:multiply_atc_integrals_vk#0:contig': 1,
+        'c:multiply_atc_integrals_vk#0:ndim': 1,
+        'c:multiply_atc_integrals_vk#0:shape': 1,
+        'c:multiply_atc_integrals_vk#1:contig': 1,
+        'c:multiply_atc_integrals_vk#1:ndim': 1,
+        'c:multiply_atc_integrals_vk#1:shape': 1,
+        'rel:contract_orb_to_rad#7 - contract_orb_to_rad#8 + contract_orb_to_rad#9 <= 0': 1,
+        'rel:contract_rad_to_orb#7 - contract_rad_to_orb#8 + contract_rad_to_orb#9 <= 0': 1,
+    },
+    'ciderpress/dft/lcao_interpolation.py': {
+        'c:add_lp1_onsite_new_bwd#0:contig': 1,
+        'c:add_lp1_onsite_new_bwd#0:shape': 1,
+        'c:add_lp1_onsite_new_fwd#0:contig': 1,
+        'c:add_lp1_onsite_new_fwd#0:shape': 1,
+        'c:add_lp1_term_grad#0:contig': 1,
+        'c:add_lp1_term_grad#0:shape': 1,
+        'c:add_lp1_term_grad#1:contig': 1,
+        'c:add_lp1_term_grad#1:shape': 1,
+        'c:compute_mol_convs_single_new#0:contig': 3,
+        'c:compute_mol_convs_single_new#0:shape': 4,
+        'c:compute_num_spline_contribs_new#0:contig': 1,
+        'c:compute_num_spline_contribs_new#0:shape': 1,
+        'c:compute_num_spline_contribs_new#1:contig': 1,
+        'c:compute_num_spline_contribs_new#1:shape': 1,
+        'c:compute_pot_convs_single_new#0:shape': 1,
+        'c:compute_spline_ind_order_new#1:contig': 1,
+        'c:compute_spline_ind_order_new#1:shape': 1,
+        'c:contract_grad_terms_parallel#0:contig': 1,
+        'c:contract_grad_terms_parallel#0:shape': 1,
+        'c:contract_grad_terms_parallel#6:contig': 1,
+        'c:fill_l1_coeff_bwd#0:ndim': 1,
+        'c:fill_l1_coeff_bwd#0:shape': 1,
+        'c:fill_l1_coeff_fwd#0:ndim': 1,
+        'c:fill_l1_coeff_fwd#0:shape': 1,
+        'c:project_conv_to_spline#0:contig': 1,
+        'c:project_conv_to_spline#0:ndim': 1,
+        'c:project_conv_to_spline#0:shape': 1,
+        'c:project_conv_to_spline#1:contig': 1,
+        'c:project_conv_to_spline#1:shape': 1,
+        'c:project_conv_to_spline#2:contig': 1,
+        'c:project_spline_to_conv#0:contig': 1,
+        'c:project_spline_to_conv#0:ndim': 1,
+        'c:project_spline_to_conv#0:shape': 1,
+        'c:project_spline_to_conv#1:contig': 1,
+        'c:project_spline_to_conv#1:shape': 1,
+        'c:project_spline_to_conv#2:contig': 1,
+        'rel:project_conv_to_spline#10 + project_conv_to_spline#4 - project_conv_to_spline#7 <= 0': 1,
+        'rel:project_conv_to_spline#4 - project_conv_to_spline#8 + project_conv_to_spline#9 <= 0': 1,
+        'rel:project_spline_to_conv#10 + project_spline_to_conv#4 - project_spline_to_conv#7 <= 0': 1,
+        'rel:project_spline_to_conv#4 - project_spline_to_conv#8 + project_spline_to_conv#9 <= 0': 1,
+    },
+    'ciderpress/dft/plans.py': {
+        'c:cider_coefs_gto_gq#0:contig': 1,
+        'c:cider_coefs_gto_gq#0:shape': 1,
+        'c:cider_coefs_gto_gq#1:contig': 1,
+        'c:cider_coefs_gto_gq#1:shape': 1,
+        'c:cider_coefs_gto_gq#2:contig': 1,
+        'c:cider_coefs_gto_gq#3:contig': 1,
+        'c:cider_coefs_gto_qg#0:contig': 1,
+        'c:cider_coefs_gto_qg#0:shape': 1,
+        'c:cider_coefs_gto_qg#1:contig': 1,
+        'c:cider_coefs_gto_qg#1:shape': 1,
+        'c:cider_coefs_gto_qg#2:contig': 1,
+        'c:cider_coefs_gto_qg#3:contig': 1,
+        'c:cider_ind_clip#0:contig': 1,
+        'c:cider_ind_clip#0:shape': 1,
+        'c:cider_ind_clip#1:contig': 1,
+        'c:cider_ind_clip#1:shape': 1,
+        'c:cider_ind_etb#0:contig': 1,
+        'c:cider_ind_etb#0:shape': 1,
+        'c:cider_ind_etb#1:contig': 1,
+        'c:cider_ind_etb#1:shape': 1,
+        'c:cider_ind_zexp#0:contig': 1,
+        'c:cider_ind_zexp#0:shape': 1,
+        'c:cider_ind_zexp#1:contig': 1,
+        'c:cider_ind_zexp#1:shape': 1,
+    },
+    'ciderpress/dft/pwutil.py': {
+        'c:eval_cubic_interp#0:contig': 1,
+        'c:eval_cubic_interp#0:dtype': 1,
+        'c:eval_cubic_interp#1:contig': 1,
+        'c:eval_cubic_interp#1:dtype': 1,
+        'c:eval_cubic_interp#2:contig': 1,
+        'c:eval_cubic_interp#2:dtype': 1,
+        'c:eval_cubic_interp#2:shape': 1,
+        'c:eval_cubic_interp#3:contig': 1,
+        'c:eval_cubic_interp#3:shape': 1,
+        'c:eval_cubic_interp_noderiv#0:contig': 1,
+        'c:eval_cubic_interp_noderiv#0:dtype': 1,
+        'c:eval_cubic_interp_noderiv#1:contig': 1,
+        'c:eval_cubic_interp_noderiv#1:dtype': 1,
+        'c:eval_cubic_interp_noderiv#2:contig': 1,
+        'c:eval_cubic_interp_noderiv#2:dtype': 1,
+        'c:eval_cubic_interp_noderiv#2:shape': 1,
+        'c:eval_cubic_interp_noderiv#3:contig': 1,
+        'c:eval_cubic_interp_noderiv#3:shape': 1,
+        'c:eval_cubic_spline#0:contig': 1,
+        'c:eval_cubic_spline#1:contig': 1,
+        'c:eval_cubic_spline#1:shape': 1,
+        'c:eval_cubic_spline#2:contig': 1,
+        'c:eval_cubic_spline#3:contig': 1,
+        'c:eval_cubic_spline#3:size': 1,
+        'c:eval_cubic_spline_deriv#0:contig': 1,
+        'c:eval_cubic_spline_deriv#1:contig': 1,
+        'c:eval_cubic_spline_deriv#1:shape': 1,
+        'c:eval_cubic_spline_deriv#2:contig': 1,
+        'c:eval_cubic_spline_deriv#3:contig': 1,
+        'c:eval_cubic_spline_deriv#3:size': 1,
+        'c:eval_pasdw_funcs#0:contig': 1,
+        'c:eval_pasdw_funcs#0:shape': 1,
+        'c:eval_pasdw_funcs#1:contig': 1,
+        'c:eval_pasdw_funcs#2:contig': 1,
+        'c:eval_pasdw_funcs#2:shape': 1,
+        'c:eval_pasdw_funcs#3:contig': 1,
+        'c:eval_pasdw_funcs#3:shape': 1,
+        'c:eval_pasdw_funcs#4:contig': 1,
+        'c:eval_pasdw_funcs#4:shape': 1,
+        'c:mulexp#0:size': 1,
+        'c:mulexp#1:size': 1,
+        'c:mulexp#2:size': 1,
+        'c:pasdw_reduce_g#0:contig': 1,
+        'c:pasdw_reduce_g#0:size': 1,
+        'c:pasdw_reduce_g#1:contig': 1,
+        'c:pasdw_reduce_g#2:contig': 1,
+        'c:pasdw_reduce_g#3:contig': 1,
+        'c:pasdw_reduce_g#3:dtype': 1,
+        'c:pasdw_reduce_g#3:ndim': 1,
+        'c:pasdw_reduce_g#3:shape': 1,
+        'c:pasdw_reduce_i#0:contig': 1,
+        'c:pasdw_reduce_i#0:size': 1,
+        'c:pasdw_reduce_i#1:contig': 1,
+        'c:pasdw_reduce_i#2:contig': 1,
+        'c:pasdw_reduce_i#3:contig': 1,
+        'c:pasdw_reduce_i#3:dtype': 1,
+        'c:pasdw_reduce_i#3:ndim': 1,
+        'c:pasdw_reduce_i#3:shape': 1,
+        'c:recursive_sph_harm_deriv_vec#2:contig': 1,
+        'c:recursive_sph_harm_deriv_vec#3:contig': 1,
+        'c:recursive_sph_harm_deriv_vec#3:shape': 1,
+        'c:recursive_sph_harm_deriv_vec#4:contig': 1,
+        'c:recursive_sph_harm_deriv_vec#4:shape': 1,
+        'c:recursive_sph_harm_vec#2:contig': 1,
+        'c:recursive_sph_harm_vec#3:contig': 1,
+        'c:recursive_sph_harm_vec#3:shape': 1,
+    },
+    'ciderpress/dft/xc_evaluator.py': {
+        'c:evaluate_se_kernel#0:contig': 1,
+        'c:evaluate_se_kernel#0:shape': 1,
+        'c:evaluate_se_kernel#1:contig': 1,
+        'c:evaluate_se_kernel#1:shape': 1,
+        'c:evaluate_se_kernel#2:contig': 1,
+        'c:evaluate_se_kernel_antisym#0:contig': 1,
+        'c:evaluate_se_kernel_antisym#0:shape': 1,
+        'c:evaluate_se_kernel_antisym#1:contig': 1,
+        'c:evaluate_se_kernel_antisym#1:shape': 1,
+        'c:evaluate_se_kernel_antisym#2:contig': 1,
+        'c:evaluate_se_kernel_spin#0:contig': 1,
+        'c:evaluate_se_kernel_spin#0:shape': 1,
+        'c:evaluate_se_kernel_spin#1:contig': 1,
+        'c:evaluate_se_kernel_spin#1:shape': 1,
+        'c:evaluate_se_kernel_spin#2:contig': 1,
+    },
+    'ciderpress/lib/fft_plan.py': {
+        'c:read_fft_output#1:contig': 1,
+        'c:read_fft_output#1:shape': 1,
+        'c:write_fft_input#1:shape': 1,
+    },
+    'ciderpress/lib/mpi_fft_plan.py': {
+        'c:allocate_mpi_fft3d_plan_world#0:contig': 1,
+        'c:read_mpi_fft3d_output#1:contig': 1,
+        'c:read_mpi_fft3d_output#1:shape': 1,
+        'c:write_mpi_fft3d_input#1:dtype': 1,
+        'c:write_mpi_fft3d_input#1:shape': 1,
+    },
+    'ciderpress/pyscf/frac_lapl.py': {
+        'c:initialize_spline_1f1#0:contig': 2,
+        'c:initialize_spline_1f1#0:shape': 2,
+        'c:initialize_spline_1f1#1:contig': 2,
+        'c:initialize_spline_1f1#1:shape': 2,
+    },
+    'ciderpress/pyscf/gen_cider_grid.py': {
+        'c:recursive_sph_harm_vec#2:contig': 1,
+        'c:recursive_sph_harm_vec#3:contig': 1,
+        'c:recursive_sph_harm_vec#3:shape': 1,
+    },
+    'ciderpress/pyscf/pbc/sdmx_fft.py': {
+        'c:apply_orb_phases#1:contig': 1,
+        'c:apply_orb_phases#1:shape': 1,
+        'c:apply_orb_phases#2:contig': 1,
+        'c:apply_orb_phases#2:shape': 1,
+        'c:apply_orb_phases#3:contig': 1,
+        'c:apply_orb_phases#4:contig': 1,
+        'c:contract_convolution_d#1:dtype': 1,
+        'c:contract_convolution_d#2:dtype': 1,
+        'c:contract_convolution_z#1:dtype': 1,
+        'c:contract_convolution_z#2:dtype': 1,
+        'c:fast_conj#0:contig': 1,
+        'c:fast_conj#0:dtype': 1,
+        'c:parallel_mul_add_d#0:contig': 1,
+        'c:parallel_mul_add_d#0:dtype': 1,
+        'c:parallel_mul_add_d#0:ndim': 1,
+        'c:parallel_mul_add_d#0:shape': 1,
+        'c:parallel_mul_add_d#1:contig': 1,
+        'c:parallel_mul_add_d#1:dtype': 1,
+        'c:parallel_mul_add_d#1:ndim': 1,
+        'c:parallel_mul_add_d#1:shape': 1,
+        'c:parallel_mul_add_d#2:contig': 1,
+        'c:parallel_mul_add_d#2:dtype': 1,
+        'c:parallel_mul_add_d#2:shape': 1,
+        'c:parallel_mul_add_z#0:contig': 1,
+        'c:parallel_mul_add_z#0:dtype': 1,
+        'c:parallel_mul_add_z#0:ndim': 1,
+        'c:parallel_mul_add_z#0:shape': 1,
+        'c:parallel_mul_add_z#1:contig': 1,
+        'c:parallel_mul_add_z#1:dtype': 1,
+        'c:parallel_mul_add_z#1:ndim': 1,
+        'c:parallel_mul_add_z#1:shape': 1,
+        'c:parallel_mul_add_z#2:contig': 1,
+        'c:parallel_mul_add_z#2:dtype': 1,
+        'c:parallel_mul_add_z#2:shape': 1,
+        'c:parallel_mul_dz#0:contig': 1,
+        'c:parallel_mul_dz#0:dtype': 1,
+        'c:parallel_mul_dz#0:ndim': 1,
+        'c:parallel_mul_dz#0:shape': 1,
+        'c:parallel_mul_dz#1:contig': 1,
+        'c:parallel_mul_dz#1:dtype': 1,
+        'c:parallel_mul_dz#1:ndim': 1,
+        'c:parallel_mul_dz#1:shape': 1,
+        'c:parallel_mul_dz#2:contig': 1,
+        'c:parallel_mul_dz#2:dtype': 1,
+        'c:parallel_mul_dz#2:shape': 1,
+        'c:parallel_mul_z#0:contig': 1,
+        'c:parallel_mul_z#0:dtype': 1,
+        'c:parallel_mul_z#0:ndim': 1,
+        'c:parallel_mul_z#0:shape': 1,
+        'c:parallel_mul_z#1:contig': 1,
+        'c:parallel_mul_z#1:dtype': 1,
+        'c:parallel_mul_z#1:ndim': 1,
+        'c:parallel_mul_z#1:shape': 1,
+        'c:parallel_mul_z#2:contig': 1,
+        'c:parallel_mul_z#2:dtype': 1,
+        'c:parallel_mul_z#2:shape': 1,
+        'c:recip_conv_kernel_gaussdiff#0:contig': 1,
+        'c:recip_conv_kernel_gaussdiff#1:contig': 1,
+        'c:recip_conv_kernel_ws#0:contig': 1,
+        'c:recip_conv_kernel_ws#1:contig': 1,
+        'c:recip_conv_kernel_ws#2:dtype': 1,
+        'c:recip_conv_kernel_ws#2:ndim': 1,
+        'c:recip_conv_kernel_ws#2:shape': 1,
+        'c:recip_conv_kernel_ws#3:contig': 1,
+        'c:recip_conv_kernel_ws#4:contig': 1,
+        'c:recip_conv_kernel_ws#5:contig': 1,
+        'c:run_ffts#0:contig': 3,
+        'c:run_ffts#0:dtype': 2,
+        'c:run_ffts#0:ndim': 1,
+        'c:run_ffts#0:shape': 2,
+        'c:weight_symm_gpts#0:contig': 1,
+        'c:weight_symm_gpts#0:dtype': 1,
+        'c:weight_symm_gpts#0:ndim': 1,
+        'c:weight_symm_gpts#0:shape': 1,
+        'c:zero_even_edges_fft#0:contig': 1,
+        'c:zero_even_edges_fft#0:dtype': 1,
+        'c:zero_even_edges_fft#0:size': 1,
+    },
+    'ciderpress/pyscf/sdmx.py': {
+        'c:SDMXcontract_ao_to_bas_grid#14:contig': 1,
+        'c:SDMXcontract_ao_to_bas_grid#14:ndim': 1,
+        'c:SDMXcontract_ao_to_bas_grid#15:contig': 1,
+        'c:SDMXcontract_ao_to_bas_grid#15:ndim': 1,
+        'c:SDMXcontract_ao_to_bas_grid_bwd#14:contig': 1,
+        'c:SDMXcontract_ao_to_bas_grid_bwd#14:ndim': 1,
+        'c:SDMXcontract_ao_to_bas_grid_bwd#15:contig': 1,
+        'c:SDMXcontract_ao_to_bas_grid_bwd#15:ndim': 1,
+        'c:SDMXcontract_ao_to_bas_l1#12:contig': 1,
+        'c:SDMXcontract_ao_to_bas_l1#13:contig': 1,
+        'c:SDMXcontract_ao_to_bas_l1_bwd#12:contig': 1,
+        'c:SDMXcontract_ao_to_bas_l1_bwd#13:contig': 1,
+        'c:SDMXeval_rad_loop#10:contig': 1,
+        'c:SDMXeval_rad_loop#12:contig': 1,
+        'c:SDMXeval_rad_loop#14:contig': 1,
+        'c:SDMXeval_rad_loop#8:contig': 1,
+        'c:SDMXylm_loop#2:contig': 1,
+        'c:SDMXylm_loop#4:contig': 1,
+        'c:contract_shl_to_alpha_l1#3:contig': 1,
+        'c:contract_shl_to_alpha_l1#3:shape': 1,
+        'c:contract_shl_to_alpha_l1#4:contig': 1,
+    },
+    'ciderpress/pyscf/sdmx_slow.py': {
+        'c:SDMXeval_loop#11:contig': 1,
+        'c:SDMXeval_loop#13:contig': 1,
+        'c:SDMXeval_loop#15:contig': 1,
+        'c:SDMXeval_loop#9:contig': 1,
+        'c:SDMXylm_loop#2:contig': 1,
+        'c:SDMXylm_loop#4:contig': 1,
+    },
+}
+FROZEN_FUNC_GUARDS = {
     'ciderpress/dft/feat_normalizer.py::FeatNormalizerList._check_shape': [
         'p:x:ndim',
         'p:x:shape',
@@ -796,246 +1329,6 @@ FROZEN_GUARDS = {
     'ciderpress/dft/feat_normalizer.py::FeatNormalizerList.get_normalized_feature_vector': [
         'p:X0T:ndim',
         'p:X0T:shape',
-    ],
-    'ciderpress/dft/grids_indexer.py::AtomicGridsIndexer.reduce_angc_ylm_': [
-        'c:reduce_angc_to_ylm#0:contig',
-        'c:reduce_angc_to_ylm#0:dtype',
-        'c:reduce_angc_to_ylm#0:ndim',
-        'c:reduce_angc_to_ylm#0:shape',
-        'c:reduce_angc_to_ylm#2:contig',
-        'c:reduce_angc_to_ylm#2:dtype',
-        'c:reduce_angc_to_ylm#2:ndim',
-        'c:reduce_angc_to_ylm#2:shape',
-        'c:reduce_ylm_to_angc#0:contig',
-        'c:reduce_ylm_to_angc#0:dtype',
-        'c:reduce_ylm_to_angc#0:ndim',
-        'c:reduce_ylm_to_angc#0:shape',
-        'c:reduce_ylm_to_angc#2:contig',
-        'c:reduce_ylm_to_angc#2:dtype',
-        'c:reduce_ylm_to_angc#2:ndim',
-        'c:reduce_ylm_to_angc#2:shape',
-        'rel:reduce_angc_to_ylm#10 + reduce_angc_to_ylm#5 - reduce_angc_to_ylm#9 <= 0',
-        'rel:reduce_ylm_to_angc#10 + reduce_ylm_to_angc#5 - reduce_ylm_to_angc#9 <= 0',
-        'self.all_weights:size',
-    ],
-    'ciderpress/dft/lcao_convolutions.py::ATCBasis.__init__': [
-        'c:generate_atc_basis_set#1:contig',
-        'c:generate_atc_basis_set#2:contig',
-        'c:generate_atc_basis_set#3:contig',
-        'c:generate_atc_basis_set#4:contig',
-        'c:generate_atc_basis_set#5:contig',
-    ],
-    'ciderpress/dft/lcao_convolutions.py::ATCBasis.bas': [
-        'c:get_atco_bas#0:contig',
-        'c:get_atco_bas#0:shape',
-    ],
-    'ciderpress/dft/lcao_convolutions.py::ATCBasis.convert_rad2orb_': [
-        'c:contract_orb_to_rad#0:contig',
-        'c:contract_orb_to_rad#0:dtype',
-        'c:contract_orb_to_rad#0:ndim',
-        'c:contract_orb_to_rad#0:shape',
-        'c:contract_orb_to_rad#1:contig',
-        'c:contract_orb_to_rad#1:dtype',
-        'c:contract_orb_to_rad#1:ndim',
-        'c:contract_orb_to_rad#1:shape',
-        'c:contract_orb_to_rad#2:contig',
-        'c:contract_orb_to_rad#2:dtype',
-        'c:contract_orb_to_rad#2:ndim',
-        'c:contract_orb_to_rad#2:size',
-        'c:contract_orb_to_rad#3:contig',
-        'c:contract_orb_to_rad#3:dtype',
-        'c:contract_rad_to_orb#0:contig',
-        'c:contract_rad_to_orb#0:dtype',
-        'c:contract_rad_to_orb#0:ndim',
-        'c:contract_rad_to_orb#0:shape',
-        'c:contract_rad_to_orb#1:contig',
-        'c:contract_rad_to_orb#1:dtype',
-        'c:contract_rad_to_orb#1:ndim',
-        'c:contract_rad_to_orb#1:shape',
-        'c:contract_rad_to_orb#2:contig',
-        'c:contract_rad_to_orb#2:dtype',
-        'c:contract_rad_to_orb#2:ndim',
-        'c:contract_rad_to_orb#2:size',
-        'c:contract_rad_to_orb#3:contig',
-        'c:contract_rad_to_orb#3:dtype',
-        'rel:contract_orb_to_rad#7 - contract_orb_to_rad#8 + contract_orb_to_rad#9 <= 0',
-        'rel:contract_rad_to_orb#7 - contract_rad_to_orb#8 + contract_rad_to_orb#9 <= 0',
-    ],
-    'ciderpress/dft/lcao_convolutions.py::ATCBasis.env': [
-        'c:get_atco_env#0:contig',
-        'c:get_atco_env#0:shape',
-    ],
-    'ciderpress/dft/lcao_convolutions.py::ConvolutionCollection.__init__': [
-        'c:generate_convolution_collection#3:contig',
-        'c:generate_convolution_collection#4:contig',
-        'c:generate_convolution_collection#4:size',
-        'c:generate_convolution_collection#5:contig',
-    ],
-    'ciderpress/dft/lcao_convolutions.py::ConvolutionCollection.multiply_atc_integrals': [
-        'c:multiply_atc_integrals#0:contig',
-        'c:multiply_atc_integrals#0:ndim',
-        'c:multiply_atc_integrals#0:shape',
-        'c:multiply_atc_integrals#1:contig',
-        'c:multiply_atc_integrals#1:ndim',
-        'c:multiply_atc_integrals#1:shape',
-    ],
-    'ciderpress/dft/lcao_convolutions.py::ConvolutionCollectionK.multiply_atc_integrals': [
-        'c:multiply_atc_integrals_vk#0:contig',
-        'c:multiply_atc_integrals_vk#0:ndim',
-        'c:multiply_atc_integrals_vk#0:shape',
-        'c:multiply_atc_integrals_vk#1:contig',
-        'c:multiply_atc_integrals_vk#1:ndim',
-        'c:multiply_atc_integrals_vk#1:shape',
-    ],
-    'ciderpress/dft/lcao_interpolation.py::LCAOInterpolator._compute_spline_ind_order': [
-        'c:compute_spline_ind_order_new#1:contig',
-        'c:compute_spline_ind_order_new#1:shape',
-    ],
-    'ciderpress/dft/lcao_interpolation.py::LCAOInterpolator._contract_grad_terms': [
-        'c:contract_grad_terms_parallel#6:contig',
-    ],
-    'ciderpress/dft/lcao_interpolation.py::LCAOInterpolator._interpolate_nopar_atom': [
-        'c:compute_mol_convs_single_new#0:shape',
-        'c:compute_pot_convs_single_new#0:shape',
-        'p:f_arlpq:shape',
-    ],
-    'ciderpress/dft/lcao_interpolation.py::LCAOInterpolator._interpolate_nopar_atom_deriv': [
-        'c:compute_mol_convs_single_new#0:contig',
-        'c:compute_mol_convs_single_new#0:shape',
-        'p:f_arlpq:shape',
-        'p:f_gq:shape',
-    ],
-    'ciderpress/dft/lcao_interpolation.py::LCAOInterpolator._orb2spline_': [
-        'c:project_conv_to_spline#0:contig',
-        'c:project_conv_to_spline#0:ndim',
-        'c:project_conv_to_spline#0:shape',
-        'c:project_conv_to_spline#1:contig',
-        'c:project_conv_to_spline#1:shape',
-        'c:project_conv_to_spline#2:contig',
-        'c:project_spline_to_conv#0:contig',
-        'c:project_spline_to_conv#0:ndim',
-        'c:project_spline_to_conv#0:shape',
-        'c:project_spline_to_conv#1:contig',
-        'c:project_spline_to_conv#1:shape',
-        'c:project_spline_to_conv#2:contig',
-        'rel:project_conv_to_spline#10 + project_conv_to_spline#4 - project_conv_to_spline#7 <= 0',
-        'rel:project_conv_to_spline#4 - project_conv_to_spline#8 + project_conv_to_spline#9 <= 0',
-        'rel:project_spline_to_conv#10 + project_spline_to_conv#4 - project_spline_to_conv#7 <= 0',
-        'rel:project_spline_to_conv#4 - project_spline_to_conv#8 + project_spline_to_conv#9 <= 0',
-    ],
-    'ciderpress/dft/lcao_interpolation.py::LCAOInterpolator._set_num_ai': [
-        'c:compute_num_spline_contribs_new#0:contig',
-        'c:compute_num_spline_contribs_new#0:shape',
-        'c:compute_num_spline_contribs_new#1:contig',
-        'c:compute_num_spline_contribs_new#1:shape',
-    ],
-    'ciderpress/dft/plans.py::NLDFSplinePlan.get_a2q_fast': [
-        'c:cider_ind_clip#0:contig',
-        'c:cider_ind_clip#0:shape',
-        'c:cider_ind_clip#1:contig',
-        'c:cider_ind_clip#1:shape',
-        'c:cider_ind_etb#0:contig',
-        'c:cider_ind_etb#0:shape',
-        'c:cider_ind_etb#1:contig',
-        'c:cider_ind_etb#1:shape',
-        'c:cider_ind_zexp#0:contig',
-        'c:cider_ind_zexp#0:shape',
-        'c:cider_ind_zexp#1:contig',
-        'c:cider_ind_zexp#1:shape',
-    ],
-    'ciderpress/dft/plans.py::_get_ovlp_fit_interpolation_coefficients': [
-        'c:cider_coefs_gto_gq#0:contig',
-        'c:cider_coefs_gto_gq#0:shape',
-        'c:cider_coefs_gto_gq#1:contig',
-        'c:cider_coefs_gto_gq#1:shape',
-        'c:cider_coefs_gto_gq#2:contig',
-        'c:cider_coefs_gto_gq#3:contig',
-        'c:cider_coefs_gto_qg#0:contig',
-        'c:cider_coefs_gto_qg#0:shape',
-        'c:cider_coefs_gto_qg#1:contig',
-        'c:cider_coefs_gto_qg#1:shape',
-        'c:cider_coefs_gto_qg#2:contig',
-        'c:cider_coefs_gto_qg#3:contig',
-    ],
-    'ciderpress/dft/pwutil.py::_eval_cubic_interp': [
-        'c:eval_cubic_interp#0:contig',
-        'c:eval_cubic_interp#0:dtype',
-        'c:eval_cubic_interp#1:contig',
-        'c:eval_cubic_interp#1:dtype',
-        'c:eval_cubic_interp#2:contig',
-        'c:eval_cubic_interp#2:dtype',
-        'c:eval_cubic_interp#2:shape',
-        'c:eval_cubic_interp#3:contig',
-        'c:eval_cubic_interp#3:shape',
-        'c:eval_cubic_interp_noderiv#0:contig',
-        'c:eval_cubic_interp_noderiv#0:dtype',
-        'c:eval_cubic_interp_noderiv#1:contig',
-        'c:eval_cubic_interp_noderiv#1:dtype',
-        'c:eval_cubic_interp_noderiv#2:contig',
-        'c:eval_cubic_interp_noderiv#2:dtype',
-        'c:eval_cubic_interp_noderiv#2:shape',
-        'c:eval_cubic_interp_noderiv#3:contig',
-        'c:eval_cubic_interp_noderiv#3:shape',
-    ],
-    'ciderpress/dft/pwutil.py::_eval_cubic_spline': [
-        'c:eval_cubic_spline#0:contig',
-        'c:eval_cubic_spline#1:contig',
-        'c:eval_cubic_spline#1:shape',
-        'c:eval_cubic_spline#2:contig',
-        'c:eval_cubic_spline#3:contig',
-        'c:eval_cubic_spline#3:size',
-        'c:eval_cubic_spline_deriv#0:contig',
-        'c:eval_cubic_spline_deriv#1:contig',
-        'c:eval_cubic_spline_deriv#1:shape',
-        'c:eval_cubic_spline_deriv#2:contig',
-        'c:eval_cubic_spline_deriv#3:contig',
-        'c:eval_cubic_spline_deriv#3:size',
-    ],
-    'ciderpress/dft/pwutil.py::eval_pasdw_funcs': [
-        'c:eval_pasdw_funcs#0:contig',
-        'c:eval_pasdw_funcs#0:shape',
-        'c:eval_pasdw_funcs#1:contig',
-        'c:eval_pasdw_funcs#2:contig',
-        'c:eval_pasdw_funcs#2:shape',
-        'c:eval_pasdw_funcs#3:contig',
-        'c:eval_pasdw_funcs#3:shape',
-        'c:eval_pasdw_funcs#4:contig',
-        'c:eval_pasdw_funcs#4:shape',
-    ],
-    'ciderpress/dft/pwutil.py::mulexp': [
-        'c:mulexp#0:size',
-        'c:mulexp#1:size',
-        'c:mulexp#2:size',
-    ],
-    'ciderpress/dft/pwutil.py::pasdw_reduce': [
-        'c:pasdw_reduce_g#0:contig',
-        'c:pasdw_reduce_g#0:size',
-        'c:pasdw_reduce_g#1:contig',
-        'c:pasdw_reduce_g#2:contig',
-        'c:pasdw_reduce_g#3:contig',
-        'c:pasdw_reduce_g#3:dtype',
-        'c:pasdw_reduce_g#3:ndim',
-        'c:pasdw_reduce_g#3:shape',
-        'c:pasdw_reduce_i#0:contig',
-        'c:pasdw_reduce_i#0:size',
-        'c:pasdw_reduce_i#1:contig',
-        'c:pasdw_reduce_i#2:contig',
-        'c:pasdw_reduce_i#3:contig',
-        'c:pasdw_reduce_i#3:dtype',
-        'c:pasdw_reduce_i#3:ndim',
-        'c:pasdw_reduce_i#3:shape',
-    ],
-    'ciderpress/dft/pwutil.py::recursive_sph_harm': [
-        'c:recursive_sph_harm_vec#2:contig',
-        'c:recursive_sph_harm_vec#3:contig',
-        'c:recursive_sph_harm_vec#3:shape',
-    ],
-    'ciderpress/dft/pwutil.py::recursive_sph_harm_deriv': [
-        'c:recursive_sph_harm_deriv_vec#2:contig',
-        'c:recursive_sph_harm_deriv_vec#3:contig',
-        'c:recursive_sph_harm_deriv_vec#3:shape',
-        'c:recursive_sph_harm_deriv_vec#4:contig',
-        'c:recursive_sph_harm_deriv_vec#4:shape',
     ],
     'ciderpress/dft/xc_evaluator.py::GlobalLinearEvaluator.__call__': [
         'p:dres:shape',
@@ -1059,23 +1352,6 @@ FROZEN_GUARDS = {
         'p:dres:shape',
         'p:res:shape',
     ],
-    'ciderpress/dft/xc_evaluator.py::RBFEvaluator.__call__': [
-        'c:evaluate_se_kernel#0:contig',
-        'c:evaluate_se_kernel#0:shape',
-        'c:evaluate_se_kernel#1:contig',
-        'c:evaluate_se_kernel#1:shape',
-        'c:evaluate_se_kernel#2:contig',
-        'c:evaluate_se_kernel_antisym#0:contig',
-        'c:evaluate_se_kernel_antisym#0:shape',
-        'c:evaluate_se_kernel_antisym#1:contig',
-        'c:evaluate_se_kernel_antisym#1:shape',
-        'c:evaluate_se_kernel_antisym#2:contig',
-        'c:evaluate_se_kernel_spin#0:contig',
-        'c:evaluate_se_kernel_spin#0:shape',
-        'c:evaluate_se_kernel_spin#1:contig',
-        'c:evaluate_se_kernel_spin#1:shape',
-        'c:evaluate_se_kernel_spin#2:contig',
-    ],
     'ciderpress/dft/xc_evaluator.py::RBFEvaluator.__init__': [
         'self._X1ctrl:contig',
         'self._alpha:contig',
@@ -1093,183 +1369,6 @@ FROZEN_GUARDS = {
         'p:coeff_sets:shape',
         'p:ind_sets:shape',
         'p:spline_grids:shape',
-    ],
-    'ciderpress/lib/fft_plan.py::FFTWrapper.call': [
-        'c:read_fft_output#1:contig',
-        'c:read_fft_output#1:shape',
-        'c:write_fft_input#1:shape',
-    ],
-    'ciderpress/lib/mpi_fft_plan.py::MPIFFTWrapper.__init__': [
-        'c:allocate_mpi_fft3d_plan_world#0:contig',
-    ],
-    'ciderpress/lib/mpi_fft_plan.py::MPIFFTWrapper.call': [
-        'c:read_mpi_fft3d_output#1:contig',
-        'c:read_mpi_fft3d_output#1:shape',
-        'c:write_mpi_fft3d_input#1:dtype',
-        'c:write_mpi_fft3d_input#1:shape',
-    ],
-    'ciderpress/pyscf/frac_lapl.py::FracLaplBuf.__init__': [
-        'c:initialize_spline_1f1#0:contig',
-        'c:initialize_spline_1f1#0:shape',
-        'c:initialize_spline_1f1#1:contig',
-        'c:initialize_spline_1f1#1:shape',
-    ],
-    'ciderpress/pyscf/gen_cider_grid.py::gen_atomic_grids_cider': [
-        'c:recursive_sph_harm_vec#2:contig',
-        'c:recursive_sph_harm_vec#3:contig',
-        'c:recursive_sph_harm_vec#3:shape',
-    ],
-    'ciderpress/pyscf/pbc/sdmx_fft.py::_contract_convolution': [
-        'c:contract_convolution_d#1:dtype',
-        'c:contract_convolution_d#2:dtype',
-        'c:contract_convolution_z#1:dtype',
-        'c:contract_convolution_z#2:dtype',
-    ],
-    'ciderpress/pyscf/pbc/sdmx_fft.py::_fast_conj': [
-        'c:fast_conj#0:contig',
-    ],
-    'ciderpress/pyscf/pbc/sdmx_fft.py::_mul_add_d': [
-        'c:parallel_mul_add_d#0:contig',
-        'c:parallel_mul_add_d#0:dtype',
-        'c:parallel_mul_add_d#0:ndim',
-        'c:parallel_mul_add_d#0:shape',
-        'c:parallel_mul_add_d#1:contig',
-        'c:parallel_mul_add_d#1:dtype',
-        'c:parallel_mul_add_d#1:ndim',
-        'c:parallel_mul_add_d#1:shape',
-        'c:parallel_mul_add_d#2:contig',
-        'c:parallel_mul_add_d#2:dtype',
-        'c:parallel_mul_add_d#2:shape',
-    ],
-    'ciderpress/pyscf/pbc/sdmx_fft.py::_mul_add_z': [
-        'c:parallel_mul_add_z#0:contig',
-        'c:parallel_mul_add_z#0:dtype',
-        'c:parallel_mul_add_z#0:ndim',
-        'c:parallel_mul_add_z#0:shape',
-        'c:parallel_mul_add_z#1:contig',
-        'c:parallel_mul_add_z#1:dtype',
-        'c:parallel_mul_add_z#1:ndim',
-        'c:parallel_mul_add_z#1:shape',
-        'c:parallel_mul_add_z#2:contig',
-        'c:parallel_mul_add_z#2:dtype',
-        'c:parallel_mul_add_z#2:shape',
-    ],
-    'ciderpress/pyscf/pbc/sdmx_fft.py::_mul_dz': [
-        'c:parallel_mul_dz#0:contig',
-        'c:parallel_mul_dz#0:dtype',
-        'c:parallel_mul_dz#0:ndim',
-        'c:parallel_mul_dz#0:shape',
-        'c:parallel_mul_dz#1:contig',
-        'c:parallel_mul_dz#1:dtype',
-        'c:parallel_mul_dz#1:ndim',
-        'c:parallel_mul_dz#1:shape',
-        'c:parallel_mul_dz#2:contig',
-        'c:parallel_mul_dz#2:dtype',
-        'c:parallel_mul_dz#2:shape',
-    ],
-    'ciderpress/pyscf/pbc/sdmx_fft.py::_mul_z': [
-        'c:parallel_mul_z#0:contig',
-        'c:parallel_mul_z#0:dtype',
-        'c:parallel_mul_z#0:ndim',
-        'c:parallel_mul_z#0:shape',
-        'c:parallel_mul_z#1:contig',
-        'c:parallel_mul_z#1:dtype',
-        'c:parallel_mul_z#1:ndim',
-        'c:parallel_mul_z#1:shape',
-        'c:parallel_mul_z#2:contig',
-        'c:parallel_mul_z#2:dtype',
-        'c:parallel_mul_z#2:shape',
-    ],
-    'ciderpress/pyscf/pbc/sdmx_fft.py::_weight_symm_gpts': [
-        'c:weight_symm_gpts#0:contig',
-        'c:weight_symm_gpts#0:dtype',
-        'c:weight_symm_gpts#0:ndim',
-        'c:weight_symm_gpts#0:shape',
-    ],
-    'ciderpress/pyscf/pbc/sdmx_fft.py::_zero_even_edges_fft': [
-        'c:zero_even_edges_fft#0:contig',
-        'c:zero_even_edges_fft#0:dtype',
-        'c:zero_even_edges_fft#0:size',
-    ],
-    'ciderpress/pyscf/pbc/sdmx_fft.py::fft_fast': [
-        'c:run_ffts#0:contig',
-        'c:run_ffts#0:dtype',
-    ],
-    'ciderpress/pyscf/pbc/sdmx_fft.py::fft_grad_fast': [
-        'c:run_ffts#0:contig',
-        'c:run_ffts#0:dtype',
-        'c:run_ffts#0:ndim',
-        'c:run_ffts#0:shape',
-        'p:Gv:contig',
-        'p:Gv:ndim',
-        'p:Gv:shape',
-    ],
-    'ciderpress/pyscf/pbc/sdmx_fft.py::get_ao_recip': [
-        'c:apply_orb_phases#1:contig',
-        'c:apply_orb_phases#1:shape',
-        'c:apply_orb_phases#2:contig',
-        'c:apply_orb_phases#2:shape',
-        'c:apply_orb_phases#3:contig',
-        'c:apply_orb_phases#4:contig',
-    ],
-    'ciderpress/pyscf/pbc/sdmx_fft.py::get_recip_convolutions': [
-        'c:recip_conv_kernel_gaussdiff#0:contig',
-        'c:recip_conv_kernel_gaussdiff#1:contig',
-        'c:recip_conv_kernel_ws#0:contig',
-        'c:recip_conv_kernel_ws#1:contig',
-        'c:recip_conv_kernel_ws#2:dtype',
-        'c:recip_conv_kernel_ws#2:ndim',
-        'c:recip_conv_kernel_ws#2:shape',
-        'c:recip_conv_kernel_ws#3:contig',
-        'c:recip_conv_kernel_ws#4:contig',
-        'c:recip_conv_kernel_ws#5:contig',
-    ],
-    'ciderpress/pyscf/pbc/util.py::FFTInterpolator.interpolate': [
-        'p:out:contig',
-        'p:out:dtype',
-        'p:out:shape',
-    ],
-    'ciderpress/pyscf/sdmx.py::EXXSphGenerator._contract_ao_to_bas_helper': [
-        'c:SDMXcontract_ao_to_bas_l1#12:contig',
-        'c:SDMXcontract_ao_to_bas_l1#13:contig',
-        'c:SDMXcontract_ao_to_bas_l1_bwd#12:contig',
-        'c:SDMXcontract_ao_to_bas_l1_bwd#13:contig',
-    ],
-    'ciderpress/pyscf/sdmx.py::EXXSphGenerator._contract_ao_to_bas_single_': [
-        'c:SDMXcontract_ao_to_bas_grid#14:contig',
-        'c:SDMXcontract_ao_to_bas_grid#14:ndim',
-        'c:SDMXcontract_ao_to_bas_grid#15:contig',
-        'c:SDMXcontract_ao_to_bas_grid#15:ndim',
-        'c:SDMXcontract_ao_to_bas_grid_bwd#14:contig',
-        'c:SDMXcontract_ao_to_bas_grid_bwd#14:ndim',
-        'c:SDMXcontract_ao_to_bas_grid_bwd#15:contig',
-        'c:SDMXcontract_ao_to_bas_grid_bwd#15:ndim',
-    ],
-    'ciderpress/pyscf/sdmx.py::EXXSphGenerator._get_ylm': [
-        'c:SDMXylm_loop#4:contig',
-    ],
-    'ciderpress/pyscf/sdmx.py::EXXSphGenerator.get_features': [
-        'c:contract_shl_to_alpha_l1#3:contig',
-        'c:contract_shl_to_alpha_l1#3:shape',
-        'c:contract_shl_to_alpha_l1#4:contig',
-        'p:coords:contig',
-    ],
-    'ciderpress/pyscf/sdmx.py::eval_conv_shells': [
-        'c:SDMXeval_rad_loop#10:contig',
-        'c:SDMXeval_rad_loop#12:contig',
-        'c:SDMXeval_rad_loop#14:contig',
-        'c:SDMXeval_rad_loop#8:contig',
-    ],
-    'ciderpress/pyscf/sdmx_slow.py::eval_conv_gto': [
-        'p:coords:contig',
-    ],
-    'ciderpress/pyscf/sdmx_slow.py::eval_conv_gto_fast': [
-        'c:SDMXeval_loop#11:contig',
-        'c:SDMXeval_loop#13:contig',
-        'c:SDMXeval_loop#15:contig',
-        'c:SDMXeval_loop#9:contig',
-        'c:SDMXylm_loop#2:contig',
-        'c:SDMXylm_loop#4:contig',
     ],
 }
 
@@ -1408,15 +1507,15 @@ def analyse(chk):
         chk.guard(rule_count_prov, box["eng"])
     else:
         chk.errors.append("rule_guards: not run because the ctypes engine failed")
-    chk.floor("ffi", 100, "80 direct + 23 indirect call sites, all with a parsed prototype (MPI FFT sources parsed with stub headers)")
-    chk.floor("ffi-callback", 6, "GTOcontract_* handed to GTOeval_sph_drv in sdmx_slow/frac_lapl")
-    chk.floor("len-agree", 48, "14 instantiable settings classes x 3 accessors + component order")
-    chk.floor("validate", 14, "dots/specs/params roles of FracLapl + 4 NLDF classes")
-    chk.floor("param-guards", 29, "frozen table of 30 guarded parameter names")
-    chk.floor("dispatch", 24, "multi-arm string ladders in the six anchored modules")
-    chk.floor("expnt-guard", 2, "guard on every exit + flag default")
-    chk.floor("guards", 387, "407 guard signatures frozen today")
-    chk.floor("reject-mode", 20, "mode/sl_level/rho_mult/rho_damp x classes")
+    chk.floor("ffi", 50, "half of the 103 ctypes call sites")
+    chk.floor("ffi-callback", 3, "half of the callbacks handed to PySCF drivers")
+    chk.floor("len-agree", 25, "half of (14 instantiable settings classes x 3 accessors + component order)")
+    chk.floor("validate", 8, "half of the dots/specs/params roles")
+    chk.floor("param-guards", 15, "half of the guarded-parameter table")
+    chk.floor("dispatch", 12, "half of the multi-arm string ladders")
+    chk.floor("expnt-guard", 1, "eval_feat_exp")
+    chk.floor("guards", 204, "half of the 408 frozen guard signatures")
+    chk.floor("reject-mode", 10, "half of the mode x class combinations")
     chk.assumptions += [
         "x86-64 System V calling convention; ctypes without argtypes passes c_int/c_double/pointers as built",
         "count and length atoms are non-negative",
@@ -1585,6 +1684,6 @@ if __name__ == "__main__":
         import json
         _t = core.Tree()
         _eng = ffi.Engine(_t, ffi_modules(_t))
-        print(json.dumps(collect_guards(_t, _eng, pf.Program(_t, [ST, PL, FN, XE, NC, LC])), indent=1))
+        print(json.dumps(guard_tables(_t, _eng, pf.Program(_t, [ST, PL, FN, XE, NC, LC])), indent=1))
         sys.exit(0)
     sys.exit(core.main(PROP, analyse, mutants, __doc__))
